@@ -251,20 +251,21 @@ def gen_timeline(rng, nsrc, grid=(), maxlen=6, p_err=0.2, p_none=0.15, nonconfor
 
 
 def gen_output_subs(rng):
-    """partition: when the subscriber subscribes to / leaves outputs 0 and 1"""
+    """partition: when the subscriber subscribes to / leaves outputs 0 and 1 (one subscription of an
+    output at a time)"""
     acts = []
     for g in (0, 1):
-        r = rng.random()
-        if r < 0.1:
+        if rng.random() < 0.1:
             continue
         t = rng.choice([0, 0, 0, 10, 20, 40, 80, 130])
         acts.append((t, "sub", g))
-        if rng.random() < 0.3:
-            acts.append((t + rng.choice([0, 10, 20, 40]), "unsub", g))
-        if rng.random() < 0.12:
-            acts.append((t + rng.choice([30, 60, 130]), "sub", g))
-    rng.shuffle(acts)
-    acts.sort(key=lambda a: a[0])
+        if rng.random() < 0.35:
+            t2 = t + rng.choice([0, 10, 20, 40])
+            acts.append((t2, "unsub", g))
+            if rng.random() < 0.4:
+                acts.append((t2 + rng.choice([0, 10, 30, 60, 130]), "sub", g))
+    order = {id(a): i for i, a in enumerate(acts)}
+    acts.sort(key=lambda a: (a[0], order[id(a)]))
     return acts
 
 
@@ -722,11 +723,9 @@ def e_replay(inst, res, v):
                 elif ev[0] == "E":
                     src_term(tag, ev)
                 else:
-                    # PROPERTY: all open windows end with the source's terminal kind (what the outer
-                    # sequence and later openings do then is not stated: nothing is demanded after it)
+                    # all open windows end with the source's terminal kind; the outer sequence follows the
+                    # openings (tests/test_observable/test_window.py::test_window_toggle_basic)
                     exp.to_all_open(tag, "C")
-                    exp.cut = tag + 1
-                    break
             elif k == 1:
                 if ev[0] == "N":
                     g = exp.open_window(tag)
